@@ -69,6 +69,24 @@ def run(call):
             for k in range(count):
                 members = [v for v, g in zip(vals, eid) if g == k]
                 exp.append(members[n] if len(members) > n else -1.0)
+        elif op == "get_rank":
+            # inrole doubles as the condition; judged by the statement: -1 outside the condition; within a group the ranks of the
+            # members in the condition are a permutation of 0..m-1 that follows the criterion
+            cond = numpy.array(inrole, dtype=bool)
+            got = [int(x) for x in sim.persons.get_rank(hh, vals, condition=cond)]
+            bad = []
+            if len(got) != len(eid):
+                bad.append("length")
+            for k in range(count):
+                mem = [i for i in range(len(eid)) if eid[i] == k and inrole[i]]
+                if sorted(got[i] for i in mem) != list(range(len(mem))):
+                    bad.append(f"group {k}: ranks {[got[i] for i in mem]} are not a permutation of 0..{len(mem) - 1}")
+                for i in mem:
+                    for j in mem:
+                        if vals[i] < vals[j] and not got[i] < got[j]:
+                            bad.append(f"group {k}: criterion {vals[i]} < {vals[j]} but ranks {got[i]}, {got[j]}")
+            bad += [f"person {i} outside the condition has rank {got[i]}" for i in range(len(eid)) if not inrole[i] and got[i] != -1]
+            return {"kind": "return", "value": {"ok": not bad, "got": got, "wrong": bad[:4]}}
         else:
             raise ValueError(op)
         g = [float(x) for x in got]
